@@ -142,11 +142,11 @@ CtxOf(c, id) ==
 CtxExec(a) ==
     LET f == infl[a]
         e == Head(f.plan)
-    IN <<"exec", f.c, e.k,
+    IN <<"exec", f.c, e.k, Len(f.plan),
          CASE e.k \in {"cfgs", "cfgu"} ->
                 IF e.key \notin DOMAIN cfgs THEN <<"gone">>
                 ELSE LET cur == cfgs[e.key] IN
-                     <<Ver(Pack, "cfg", e.key) # e.ver, cur.term # e.rec.term, cur.master # e.rec.master,
+                     <<e.rec.state, cur.applied = 0, dev[e.key].vals = EmptyFn, Ver(Pack, "cfg", e.key) # e.ver, cur.term # e.rec.term, cur.master # e.rec.master,
                        cur.committed # e.rec.committed, cur.applied # e.rec.applied, cur.state # e.rec.state,
                        cur.proposed # e.rec.proposed, cur.index # e.rec.index>>
            [] e.k = "prop" ->
